@@ -1717,6 +1717,33 @@ def run_scenario(seed, shard, idx, tier):
                 stats["violations"].append(
                     {"class": cls, "scenario": scn, "channel": chan,
                      "recipe": recipe, "faults": [plan]})
+    # SIGINT while the tool runs (every sixth scenario): the run may end
+    # non-zero, or finish with the very same answer -- never "succeed" with
+    # another one (a load aborted by Ctrl-C must not be taken for a document)
+    if idx % 6 == 0 and "file" in runs:
+        recipe, ctx = runs["file"]
+        base = driver.execute(recipe, count_lines=True)
+        stats["runs"] += 1
+        for _ in range(2 if tier == "quick" else 8):
+            if base.lines <= 0:
+                break
+            plan = {"kind": "interrupt", "step": rng.randrange(base.lines),
+                    "arg": None}
+            res = driver.execute(recipe, [plan])
+            stats["runs"] += 1
+            stats["steps"] += res.steps
+            stats["digest"].update(res.digest().encode())
+            if not res.fired:
+                continue
+            stats["fired"]["interrupt"] = \
+                stats["fired"].get("interrupt", 0) + 1
+            same = (res.exit, res.stdout, res.fs) == \
+                (base.exit, base.stdout, base.fs)
+            if res.exit == 0 and not same:
+                stats["violations"].append(
+                    {"class": "%s:interrupted-but-exit-0-with-wrong-answer"
+                              % tool[5:], "scenario": scn, "channel": "file",
+                     "recipe": recipe, "faults": [plan]})
     stats["digest"] = stats["digest"].hexdigest()
     stats["sample"] = None
     if idx % 173 == 0:
@@ -1772,6 +1799,8 @@ def rejudge(viol):
                                                   base.fs)
         if "short-read" in cls:
             return bool(res.fired) and not same, res
+        if "interrupted" in cls:
+            return bool(res.fired) and res.exit == 0 and not same, res
         return bool(res.fired) and res.exit == 0 and not same, res
     res = driver.execute(recipe)
     if "stdin-delivery-changes" in cls:
